@@ -355,21 +355,27 @@ def run_case(case):
                     ok &= np.array_equal(row[: want.size], want) and np.all(row[want.size:] == nc)
                 res.check(ok and ci.shape[0] == nc and ci.shape[1] == max(int(np.sum(D[c] <= radius)) for c in range(nc)), "channel_index", f"{kind} radius {radius}: neighbour table wrong")
                 ns = int(rng.integers(400, 2000))
-                arr = rng.standard_normal((nc, ns)).astype(np.float32)
-                k = int(rng.integers(1, 30))
+                dtn = str(rng.choice(["float32", "float32", "float64", "int16", "int32"]))      # raw counts are a legitimate source array too
+                arr = rng.standard_normal((nc, ns)).astype(np.float32) if dtn.startswith("float") else rng.integers(-3000, 3000, (nc, ns))
+                arr = arr.astype(dtn)
+                k = int(rng.integers(3, 30))
                 off, length = int(rng.choice([42, 20, 60])), int(rng.choice([128, 64, 90]))
                 smp = np.sort(rng.integers(off, ns - (length - off) - 1, k))
                 pk = rng.integers(0, nc, k)
+                pk[:2] = (0, nc - 1)                   # both probe ends: rows of the neighbour table that are padded
                 df = pd.DataFrame({"sample": smp, "peak_channel": pk})
                 try:
                     wfs, cind, to = WE.extract_wfs_array(arr.copy(), df, ci, trough_offset=off, spike_length_samples=length, add_nan_trace=True)
                     good = wfs.shape == (k, ci.shape[1], length)
                     for i in range(k):
-                        exp = np.full((ci.shape[1], length), np.nan, np.float32)
+                        exp = np.full((ci.shape[1], length), np.nan, np.float64)
                         real = ci[pk[i]] < nc
                         exp[real] = arr[ci[pk[i]][real], smp[i] - off: smp[i] - off + length]
-                        good &= np.array_equal(wfs[i], exp, equal_nan=True)
-                    res.check(good, "extract_wfs_array", f"{kind} radius {radius} off={off} len={length}: stack differs from the source windows", counter="rows_compared")
+                        good &= np.array_equal(np.asarray(wfs[i], np.float64), exp, equal_nan=True)
+                    npad = int(np.sum(ci[pk] == nc))
+                    res.check(good, "extract_wfs_array" + ("" if dtn == "float32" else ":source-dtype"), f"{kind} radius {radius} off={off} len={length} source dtype {dtn}: stack "
+                              f"(dtype {wfs.dtype}, {npad} padded rows expected NaN) differs from the source windows", counter="rows_compared")
+                    res.count("padded_rows_checked", npad)
                     res.count("rows_compared", k)
                 except Exception as e:
                     res.exception("extract_wfs_array:exception", e, f"{kind} radius {radius}")
